@@ -107,3 +107,6 @@ func (this *RaftTransport) VerifGroups() map[uuid.UUID]*RaftGroup {
 	}
 	return out
 }
+
+// VerifTransport returns the transport the group sends and receives through.
+func (this *RaftGroup) VerifTransport() *RaftTransport { return this.transport }
